@@ -157,3 +157,52 @@ Theorem send_scrape_guard : forall t s, slog (send_scrape t s) <> slog s ->
   t_busy t = false /\ t_en t = true /\ t_scr t = true /\ (t_sct t + scrape_min_gap) * usec <= now s.
 Proof. exact Proofs.send_scrape_guard. Qed.
 Print Assumptions send_scrape_guard.
+
+(* ---- trace forms over the enlarged alphabet (restarts, scrapes, split replies) ---- *)
+
+Theorem figures_match_transfer_state_trace : forall t0 groups ops r,
+  In r (log (run (init t0 groups) ops)) ->
+  exists ops1 o ops2, ops = ops1 ++ o :: ops2 /\
+    (let '(up, comp, lft) := figs_for (run (init t0 groups) ops1) o in
+     r_up r = Z.max up 0 /\ r_comp r = Z.max comp 0 /\ r_left r = lft).
+Proof. exact Proofs.figures_match_transfer_state_trace. Qed.
+Print Assumptions figures_match_transfer_state_trace.
+
+Theorem tier_order_scrape_in_flight : forall t0 groups ops r u,
+  In r (log (run (init t0 groups) ops)) ->
+  r_src r = SrcTimer -> f_promisc (r_fl r) = false -> f_requesting (r_fl r) = false ->
+  In u (r_trs r) -> (t_group u < t_group (r_pre r))%nat -> t_en u = true -> t_fc u = 0 -> t_ev u = EvScrape ->
+  activity_time_next (r_pre r) <= activity_time_next u /\
+  exists p, In p (r_trs r) /\ can_request_state p = true /\ t_fc p <> 0.
+Proof. exact Proofs.tier_order_scrape_in_flight. Qed.
+Print Assumptions tier_order_scrape_in_flight.
+
+(* a result callback still queued for the main thread is the result of the LAST request handed to its tracker *)
+Theorem stale_reply_never_accepts : forall t0 groups ops id k t,
+  let s := run (init t0 groups) ops in
+  pend s = Some (id, k) -> find_id (trs s) id = Some t ->
+  busy_ann t = false /\
+  Forall (fun r => r_id r <> id) (firstn (length (log s) - pmark s) (log s)) /\
+  match newest_for id (log s) with
+  | Some r => t_ev t = r_ev r \/ t_ev t = EvScrape
+  | None => t_ev t = EvNone \/ t_ev t = EvScrape
+  end.
+Proof. exact Proofs.stale_reply_never_accepts. Qed.
+Print Assumptions stale_reply_never_accepts.
+
+(* the main thread's queue clears a pending started / completed only for the reply to the newest request of that
+   tracker, which carried that event, and nothing was sent to the tracker since the reply was queued *)
+Theorem drain_accepts_only_carrier : forall t0 groups ops ev,
+  ev = EvStarted \/ ev = EvCompleted ->
+  let s := run (init t0 groups) ops in
+  pend_flag ev (fl s) = true -> pend_flag ev (fl (step s ODrain)) = false ->
+  exists id r, pend s = Some (id, (true, false)) /\ newest_for id (log s) = Some r /\ r_ev r = ev /\
+    Forall (fun q => r_id q <> id) (firstn (length (log s) - pmark s) (log s)).
+Proof. exact Proofs.drain_accepts_only_carrier. Qed.
+Print Assumptions drain_accepts_only_carrier.
+
+Theorem scrapes_only_idle : forall t0 groups ops T t,
+  In (T, t) (slog (run (init t0 groups) ops)) ->
+  t_busy t = false /\ t_en t = true /\ t_scr t = true /\ (t_sct t + scrape_min_gap) * usec <= T.
+Proof. exact Proofs.scrapes_only_idle. Qed.
+Print Assumptions scrapes_only_idle.
